@@ -489,7 +489,7 @@ def scan_assumptions(text):
                           (r"\bassume_specification\b", "assume_specification"), (r"\baxiom\s+fn\b", "axiom"), (r"#\[verifier::external", "verifier::external"),
                           (r"external_type_specification|external_trait_specification", "external_spec")):
             if re.search(pat, code):
-                m = re.search(r"assume_specification\s*(?:<[^>]*>)?\s*\[\s*([^\]]+)\]", code)
+                m = re.search(r"assume_specification\s*(?:<[^>\[]*>)?\s*\[\s*(.+?)\s*\]\s*\(", code)
                 what = name
                 ma = re.search(r"axiom\s+fn\s+(\w+)", code)
                 if ma:
